@@ -1,9 +1,10 @@
 /-
-  AnyVecModel.Props.Refine — C01 as a refinement: any sequence of element-wise operations on a vector, from any
-  world satisfying the invariant, behaves like the same sequence on an abstract `Vec` (a list of element
-  identities with a fresh-identity counter). The only freedom the abstract side has is that an operation which needs
-  room may be refused by the storage (capacity overflow, fixed capacity): then the value offered is destroyed and the
-  vector is unchanged - which is also what `std::vec::Vec` does up to its panic.
+  AnyVecModel.Props.Refine — C01 (and the capacity rules of C10) as a refinement: any sequence of element-wise and
+  capacity operations on a vector, from any world satisfying the invariant, behaves like the same sequence on an abstract
+  `Vec` (a list of element identities, a fresh-identity counter and a capacity). The only freedom the abstract side has
+  is the storage's: an operation which needs room when the vector is full either grows the capacity (never on a fixed
+  storage) or is refused (capacity overflow, fixed capacity): then the value offered is destroyed and the vector is
+  unchanged - which is also what `std::vec::Vec` does up to its panic. With room nothing may be refused.
 -/
 import AnyVecModel.Proofs.Exec
 import AnyVecModel.Props.Hist
@@ -11,7 +12,7 @@ namespace AnyVec
 namespace Refine
 open World
 
-/-- the element-wise operations of C01: values come as owned wrappers, removal handles are dropped -/
+/-- the operations of C01 / C10: values come as owned wrappers, removal handles are dropped -/
 inductive VOp where
   | push | tpush | insert (i : Nat) | tinsert (i : Nat)
   | pop | remove (i : Nat) | swapRemove (i : Nat) | clear
@@ -19,6 +20,10 @@ inductive VOp where
   | drain (a b : Nat)
   /-- removals through the typed view: the value goes to the caller -/
   | tpop | tremove (i : Nat) | tswapRemove (i : Nat)
+  /-- capacity requests (`reserve` on every storage, the other three on resizable storages only) -/
+  | reserve (n : Nat) | reserveExact (n : Nat) | shrinkToFit | shrinkTo (n : Nat)
+  /-- `as_mut_slice().swap(i, j)` and `*at_mut(i) = fresh value` through the typed view -/
+  | swap (i j : Nat) | assign (i : Nat)
   deriving Repr, DecidableEq
 
 /-- the script step of an abstract operation on vector `v` whose elements have type `ty` -/
@@ -35,45 +40,100 @@ def VOp.toOp (v ty : Nat) : VOp → Op
   | .tpop => .tpop v
   | .tremove i => .tremove v i
   | .tswapRemove i => .tswapRemove v i
+  | .reserve n => .reserve v n
+  | .reserveExact n => .reserveExact v n
+  | .shrinkToFit => .shrinkToFit v
+  | .shrinkTo n => .shrinkTo v n
+  | .swap i j => .tswap v i j
+  | .assign i => .tassign v i
 
-/-- `Vec<Id>` plus the counter identities are drawn from -/
+/-- `Vec<Id>` plus the counter identities are drawn from, its capacity, and whether the storage has a fixed capacity
+(`Stack`, `StackN`, `Empty`: there `reserve_exact` / `shrink_to*` do not exist) -/
 structure Spec where
   items : List Nat
   next : Nat
+  cap : Nat
+  fixed : Bool
   deriving Repr, DecidableEq
+
+/-- operations a vector on this kind of storage has -/
+def VOp.Allowed (fixed : Bool) : VOp → Prop
+  | .reserveExact _ => fixed = false
+  | .shrinkToFit => fixed = false
+  | .shrinkTo _ => fixed = false
+  | _ => True
+
+/-- making room for one more element: `some c` - there is room afterwards, with capacity `c`; `none` - refused.
+With room nothing happens; a full vector grows (not on a fixed storage) or is refused. -/
+inductive Spec.Room : Spec → Option Nat → Prop where
+  | room (s : Spec) (h : s.items.length < s.cap) : Room s (some s.cap)
+  | grow (s : Spec) (c : Nat) (hfull : s.items.length = s.cap) (hfix : s.fixed = false) (hc : s.cap < c) : Room s (some c)
+  | refuse (s : Spec) (hfull : s.items.length = s.cap) : Room s none
 
 /-- what the abstract vector does -/
 inductive Spec.Step : Spec → VOp → Spec → Prop where
-  | push (s : Spec) : Step s .push ⟨s.items ++ [s.next], s.next + 1⟩
-  | pushRefused (s : Spec) : Step s .push ⟨s.items, s.next + 1⟩
-  | tpush (s : Spec) : Step s .tpush ⟨s.items ++ [s.next], s.next + 1⟩
-  | tpushRefused (s : Spec) : Step s .tpush ⟨s.items, s.next + 1⟩
-  | insert (s : Spec) (i : Nat) (h : i ≤ s.items.length) : Step s (.insert i) ⟨s.items.insertIdx i s.next, s.next + 1⟩
-  | insertRefused (s : Spec) (i : Nat) : Step s (.insert i) ⟨s.items, s.next + 1⟩
-  | tinsert (s : Spec) (i : Nat) (h : i ≤ s.items.length) : Step s (.tinsert i) ⟨s.items.insertIdx i s.next, s.next + 1⟩
-  | tinsertRefused (s : Spec) (i : Nat) : Step s (.tinsert i) ⟨s.items, s.next + 1⟩
-  | pop (s : Spec) : Step s .pop ⟨s.items.take (s.items.length - 1), s.next⟩
-  | remove (s : Spec) (i : Nat) (h : i < s.items.length) : Step s (.remove i) ⟨s.items.eraseIdx i, s.next⟩
+  | push (s : Spec) (c : Nat) (h : s.Room (some c)) :
+      Step s .push { s with items := s.items ++ [s.next], next := s.next + 1, cap := c }
+  | pushRefused (s : Spec) (h : s.Room none) : Step s .push { s with next := s.next + 1 }
+  | tpush (s : Spec) (c : Nat) (h : s.Room (some c)) :
+      Step s .tpush { s with items := s.items ++ [s.next], next := s.next + 1, cap := c }
+  | tpushRefused (s : Spec) (h : s.Room none) : Step s .tpush { s with next := s.next + 1 }
+  | insert (s : Spec) (i c : Nat) (hi : i ≤ s.items.length) (h : s.Room (some c)) :
+      Step s (.insert i) { s with items := s.items.insertIdx i s.next, next := s.next + 1, cap := c }
+  | insertRefused (s : Spec) (i : Nat) (h : s.items.length < i ∨ s.Room none) :
+      Step s (.insert i) { s with next := s.next + 1 }
+  | tinsert (s : Spec) (i c : Nat) (hi : i ≤ s.items.length) (h : s.Room (some c)) :
+      Step s (.tinsert i) { s with items := s.items.insertIdx i s.next, next := s.next + 1, cap := c }
+  | tinsertRefused (s : Spec) (i : Nat) (h : s.items.length < i ∨ s.Room none) :
+      Step s (.tinsert i) { s with next := s.next + 1 }
+  | pop (s : Spec) : Step s .pop { s with items := s.items.take (s.items.length - 1) }
+  | remove (s : Spec) (i : Nat) (h : i < s.items.length) : Step s (.remove i) { s with items := s.items.eraseIdx i }
   | removeOut (s : Spec) (i : Nat) (h : s.items.length ≤ i) : Step s (.remove i) s
   | swapRemove (s : Spec) (i : Nat) (h : i < s.items.length) :
-      Step s (.swapRemove i) ⟨(s.items.set i (s.items.getD (s.items.length - 1) 0)).take (s.items.length - 1), s.next⟩
+      Step s (.swapRemove i)
+        { s with items := (s.items.set i (s.items.getD (s.items.length - 1) 0)).take (s.items.length - 1) }
   | swapRemoveOut (s : Spec) (i : Nat) (h : s.items.length ≤ i) : Step s (.swapRemove i) s
-  | clear (s : Spec) : Step s .clear ⟨[], s.next⟩
+  | clear (s : Spec) : Step s .clear { s with items := [] }
   | drain (s : Spec) (a b : Nat) (h : a ≤ b ∧ b ≤ s.items.length) :
-      Step s (.drain a b) ⟨s.items.take a ++ s.items.drop b, s.next⟩
+      Step s (.drain a b) { s with items := s.items.take a ++ s.items.drop b }
   | drainOut (s : Spec) (a b : Nat) (h : ¬ (a ≤ b ∧ b ≤ s.items.length)) : Step s (.drain a b) s
-  | tpop (s : Spec) : Step s .tpop ⟨s.items.take (s.items.length - 1), s.next⟩
-  | tremove (s : Spec) (i : Nat) (h : i < s.items.length) : Step s (.tremove i) ⟨s.items.eraseIdx i, s.next⟩
+  | tpop (s : Spec) : Step s .tpop { s with items := s.items.take (s.items.length - 1) }
+  | tremove (s : Spec) (i : Nat) (h : i < s.items.length) : Step s (.tremove i) { s with items := s.items.eraseIdx i }
   | tremoveOut (s : Spec) (i : Nat) (h : s.items.length ≤ i) : Step s (.tremove i) s
   | tswapRemove (s : Spec) (i : Nat) (h : i < s.items.length) :
-      Step s (.tswapRemove i) ⟨(s.items.set i (s.items.getD (s.items.length - 1) 0)).take (s.items.length - 1), s.next⟩
+      Step s (.tswapRemove i)
+        { s with items := (s.items.set i (s.items.getD (s.items.length - 1) 0)).take (s.items.length - 1) }
   | tswapRemoveOut (s : Spec) (i : Nat) (h : s.items.length ≤ i) : Step s (.tswapRemove i) s
+  /-- `reserve(n)`: nothing when `len + n` fits; otherwise the capacity grows to at least `len + n` (not on a fixed
+  storage) or the request is refused. The items never change. -/
+  | reserveFits (s : Spec) (n : Nat) (h : s.items.length + n ≤ s.cap) : Step s (.reserve n) s
+  | reserveGrow (s : Spec) (n c : Nat) (h : s.cap < s.items.length + n) (hfix : s.fixed = false)
+      (hc : s.items.length + n ≤ c) : Step s (.reserve n) { s with cap := c }
+  | reserveRefused (s : Spec) (n : Nat) (h : s.cap < s.items.length + n) : Step s (.reserve n) s
+  /-- `reserve_exact(n)`: as `reserve`, growing to exactly `len + n` -/
+  | reserveExactFits (s : Spec) (n : Nat) (h : s.items.length + n ≤ s.cap) : Step s (.reserveExact n) s
+  | reserveExactGrow (s : Spec) (n : Nat) (h : s.cap < s.items.length + n) :
+      Step s (.reserveExact n) { s with cap := s.items.length + n }
+  | reserveExactRefused (s : Spec) (n : Nat) (h : s.cap < s.items.length + n) : Step s (.reserveExact n) s
+  /-- `shrink_to_fit`: the capacity becomes the length (or the storage refuses and nothing changes) -/
+  | shrinkToFit (s : Spec) : Step s .shrinkToFit { s with cap := s.items.length }
+  | shrinkToFitRefused (s : Spec) : Step s .shrinkToFit s
+  /-- `shrink_to(m)`: the capacity becomes `min(capacity, max(len, m))` -/
+  | shrinkTo (s : Spec) (m : Nat) : Step s (.shrinkTo m) { s with cap := min s.cap (max s.items.length m) }
+  | shrinkToRefused (s : Spec) (m : Nat) : Step s (.shrinkTo m) s
+  | swap (s : Spec) (i j : Nat) (h : i < s.items.length ∧ j < s.items.length) :
+      Step s (.swap i j) { s with items := (s.items.set i (s.items.getD j 0)).set j (s.items.getD i 0) }
+  | swapOut (s : Spec) (i j : Nat) (h : ¬ (i < s.items.length ∧ j < s.items.length)) : Step s (.swap i j) s
+  | assign (s : Spec) (i : Nat) (h : i < s.items.length) :
+      Step s (.assign i) { s with items := s.items.set i s.next, next := s.next + 1 }
+  | assignOut (s : Spec) (i : Nat) (h : s.items.length ≤ i) : Step s (.assign i) { s with next := s.next + 1 }
 
 /-- the concrete world shows the abstract vector at `v` -/
 structure Rel (v ty : Nat) (w : World) (s : Spec) : Prop where
   inv : w.Inv
   nofault : w.fault = none
-  vec : ∃ d, w.vecs[v]? = some d ∧ d.live = true ∧ d.ty = ty ∧ d.abs = s.items.map Cell.val
+  vec : ∃ d, w.vecs[v]? = some d ∧ d.live = true ∧ d.ty = ty ∧ d.abs = s.items.map Cell.val ∧
+    d.cap = s.cap ∧ VecSt.resizable d.bk = !s.fixed
   next : w.created = s.next
 
 theorem vis_eq (w : World) (v : Nat) (d : VecSt) (hv : w.vecs[v]? = some d) : w.vis v = d.abs := by
@@ -82,89 +142,12 @@ theorem vis_eq (w : World) (v : Nat) (d : VecSt) (hv : w.vecs[v]? = some d) : w.
 /-- storing a new state for `v`: the other parts of the relation carry over -/
 theorem Rel.mk' {v ty : Nat} {w' : World} {s' : Spec} (hinv : w'.Inv) (hf : w'.fault = none) (d' : VecSt)
     (hv : w'.vecs[v]? = some d') (hl : d'.live = true) (hty : d'.ty = ty) (habs : d'.abs = s'.items.map Cell.val)
-    (hn : w'.created = s'.next) : Rel v ty w' s' :=
-  ⟨hinv, hf, ⟨d', hv, hl, hty, habs⟩, hn⟩
+    (hn : w'.created = s'.next) (hcap : d'.cap = s'.cap) (hbk : VecSt.resizable d'.bk = !s'.fixed) : Rel v ty w' s' :=
+  ⟨hinv, hf, ⟨d', hv, hl, hty, habs, hcap, hbk⟩, hn⟩
 
 theorem set_get (w : World) (v : Nat) (d x : VecSt) (hv : w.vecs[v]? = some d) : (w.vecs.set v x)[v]? = some x := by
   have hlt : v < w.vecs.length := (List.getElem?_eq_some_iff.mp hv).1
   simp [hlt]
-
-/-- `push` of an owned value -/
-theorem step_push (cfg : Cfg) (v ty : Nat) (w : World) (s : Spec) (h : Rel v ty w s) :
-    ∃ s', Spec.Step s .push s' ∧ Rel v ty (step cfg (VOp.push.toOp v ty) w).1 s' ∧
-      (step cfg (VOp.push.toOp v ty) w).2.notUb := by
-  obtain ⟨hinv, hf, ⟨d, hv, hl, hty, habs⟩, hn⟩ := h
-  have hcore : Hist.Core (VOp.push.toOp v ty) := trivial
-  have hvalid : Hist.Valid w.vecs (VOp.push.toOp v ty) := ⟨⟨d, hv, hl⟩, by intro u i dp hh; cases hh⟩
-  obtain ⟨hinv', hnub⟩ := Hist.step_inv cfg _ w hinv hcore hvalid
-  have hg := hinv.good v d hv
-  cases hr : d.reserveOne with
-  | ok p =>
-    obtain ⟨d1, es⟩ := p
-    obtain ⟨hroom, hlen1, ha, hw1, hty1, _, _, _, _, _, hl1⟩ := reserveOne_spec d d1 es hg.wf hr
-    have hvb : w.bump.vecs[v]? = some d := hv
-    have hex := pushUnchecked_plain w.bump v w.created (.wrapper w.created ty) (Val.Plain.wrapper _ _) d d1 es hvb hl hg.wf hr
-    have hstep : step cfg (VOp.push.toOp v ty) w =
-        ({ w.bump with vecs := w.bump.vecs.set v (d1.pushCell (.val w.created)), ev := es.reverse ++ w.bump.ev }, .ok []) := by
-      have hb : ({ w with created := w.created + 1 } : World) = w.bump := rfl
-      simp only [VOp.toOp, step, mkVal, WM.bind_apply, fresh, WM.pure_apply, push, hb, getVec_ok w.bump v d hvb hl, valTy, hty,
-        ne_eq, not_true_eq_false, if_false, hex]
-    refine ⟨⟨s.items ++ [s.next], s.next + 1⟩, Spec.Step.push s, ?_, hnub⟩
-    rw [hstep] at hinv' ⊢
-    refine Rel.mk' hinv' (by simpa [World.bump] using hf) (d1.pushCell (.val w.created)) (set_get w.bump v d _ hvb)
-      (by simp [VecSt.pushCell, hl1, hl]) (by simp [VecSt.pushCell, hty1, hty]) ?_ (by simp [World.bump, hn])
-    rw [VecSt.pushCell_abs d1 _ hw1, ha, habs, hn]; simp
-  | panic m =>
-    refine ⟨⟨s.items, s.next + 1⟩, Spec.Step.pushRefused s, ?_, hnub⟩
-    have hvb : w.bump.vecs[v]? = some d := hv
-    have hstep : step cfg (VOp.push.toOp v ty) w =
-        (logDrop d.hasDrop w.created { w.bump with fault := none }, .panic m) := by
-      have hb : ({ w with created := w.created + 1 } : World) = w.bump := rfl
-      simp only [VOp.toOp, step, mkVal, WM.bind_apply, fresh, WM.pure_apply, push, hb, getVec_ok w.bump v d hvb hl, valTy, hty,
-        ne_eq, not_true_eq_false, if_false, pushUnchecked, WM.onUnwind, vecOp, hr, WM.lift, valDrop, dropElem, WM.modify_apply]
-      cases d.hasDrop <;> simp [tick, logDrop, WM.pure_apply]
-    rw [hstep] at hinv' ⊢
-    exact Rel.mk' hinv' rfl d (by simpa [logDrop] using hvb) hl hty habs (by simp [logDrop, World.bump, hn])
-  | ub m =>
-    have := reserveOne_notUb d
-    rw [hr] at this; exact this.elim
-
-/-- `push` through the typed view -/
-theorem step_tpush (cfg : Cfg) (v ty : Nat) (w : World) (s : Spec) (h : Rel v ty w s) :
-    ∃ s', Spec.Step s .tpush s' ∧ Rel v ty (step cfg (VOp.tpush.toOp v ty) w).1 s' ∧
-      (step cfg (VOp.tpush.toOp v ty) w).2.notUb := by
-  obtain ⟨hinv, hf, ⟨d, hv, hl, hty, habs⟩, hn⟩ := h
-  have hcore : Hist.Core (VOp.tpush.toOp v ty) := trivial
-  have hvalid : Hist.Valid w.vecs (VOp.tpush.toOp v ty) := ⟨d, hv, hl⟩
-  obtain ⟨hinv', hnub⟩ := Hist.step_inv cfg _ w hinv hcore hvalid
-  have hg := hinv.good v d hv
-  have hvb : w.bump.vecs[v]? = some d := hv
-  have hb : ({ w with created := w.created + 1 } : World) = w.bump := rfl
-  cases hr : d.reserveOne with
-  | ok p =>
-    obtain ⟨d1, es⟩ := p
-    obtain ⟨hroom, hlen1, ha, hw1, hty1, _, _, _, _, _, hl1⟩ := reserveOne_spec d d1 es hg.wf hr
-    have hex := pushUnchecked_plain w.bump v w.created (.wrapper w.created d.ty) (Val.Plain.wrapper _ _) d d1 es hvb hl hg.wf hr
-    have hstep : step cfg (VOp.tpush.toOp v ty) w =
-        ({ w.bump with vecs := w.bump.vecs.set v (d1.pushCell (.val w.created)), ev := es.reverse ++ w.bump.ev }, .ok []) := by
-      simp only [VOp.toOp, step, WM.bind_apply, getVec_ok w v d hv hl, fresh, WM.pure_apply, hb, hex]
-    refine ⟨⟨s.items ++ [s.next], s.next + 1⟩, Spec.Step.tpush s, ?_, hnub⟩
-    rw [hstep] at hinv' ⊢
-    refine Rel.mk' hinv' (by simpa [World.bump] using hf) (d1.pushCell (.val w.created)) (set_get w.bump v d _ hvb)
-      (by simp [VecSt.pushCell, hl1, hl]) (by simp [VecSt.pushCell, hty1, hty]) ?_ (by simp [World.bump, hn])
-    rw [VecSt.pushCell_abs d1 _ hw1, ha, habs, hn]; simp
-  | panic m =>
-    refine ⟨⟨s.items, s.next + 1⟩, Spec.Step.tpushRefused s, ?_, hnub⟩
-    have hstep : step cfg (VOp.tpush.toOp v ty) w =
-        (logDrop d.hasDrop w.created { w.bump with fault := none }, .panic m) := by
-      simp only [VOp.toOp, step, WM.bind_apply, getVec_ok w v d hv hl, fresh, WM.pure_apply, hb, getVec_ok w.bump v d hvb hl,
-        pushUnchecked, WM.onUnwind, vecOp, hr, WM.lift, valDrop, dropElem, WM.modify_apply]
-      cases d.hasDrop <;> simp [tick, logDrop, WM.pure_apply]
-    rw [hstep] at hinv' ⊢
-    exact Rel.mk' hinv' rfl d (by simpa [logDrop] using hvb) hl hty habs (by simp [logDrop, World.bump, hn])
-  | ub m =>
-    have := reserveOne_notUb d
-    rw [hr] at this; exact this.elim
 
 theorem map_insertIdx' {α β} (f : α → β) (l : List α) (i : Nat) (a : α) :
     (l.insertIdx i a).map f = (l.map f).insertIdx i (f a) := by
@@ -187,11 +170,126 @@ theorem abs_len {d : VecSt} {items : List Nat} (hwf : d.WF) (habs : d.abs = item
   have := VecSt.abs_length hwf
   rw [habs] at this; simpa using this
 
+/-- only a resizable storage grows -/
+theorem memExpand_resizable (d d1 : VecSt) (a : Nat) (es : List Event) (h : d.memExpand a = .ok (d1, es)) :
+    VecSt.resizable d.bk = true := by
+  unfold VecSt.memExpand at h
+  cases hb : d.bk <;> simp [hb] at h <;> rfl
+
+/-- `reserve_one` that returns: there was room, or the (resizable) storage grew -/
+theorem room_ok {d d1 : VecSt} {es : List Event} {s : Spec} (hwf : d.WF) (habs : d.abs = s.items.map Cell.val)
+    (hcp : d.cap = s.cap) (hbk : VecSt.resizable d.bk = !s.fixed) (hr : d.reserveOne = .ok (d1, es)) :
+    s.Room (some d1.cap) := by
+  have hlen := abs_len hwf habs
+  have hlc := hwf.len_le_cap
+  unfold VecSt.reserveOne at hr
+  split at hr
+  · rename_i hfull
+    obtain ⟨hc, _⟩ := memExpand_spec d d1 1 es hwf hr
+    have hrz := memExpand_resizable d d1 1 es hr
+    refine Spec.Room.grow s d1.cap (by omega) ?_ (by omega)
+    rw [hrz] at hbk; cases hfx : s.fixed <;> simp [hfx] at hbk ⊢
+  · rename_i hnf
+    cases hr
+    rw [hcp]
+    exact Spec.Room.room s (by omega)
+
+/-- `reserve_one` that panics: the vector was full -/
+theorem room_refused {d : VecSt} {m : String} {s : Spec} (hwf : d.WF) (habs : d.abs = s.items.map Cell.val)
+    (hcp : d.cap = s.cap) (hr : d.reserveOne = .panic m) : s.Room none := by
+  have hlen := abs_len hwf habs
+  unfold VecSt.reserveOne at hr
+  split at hr
+  · exact Spec.Room.refuse s (by omega)
+  · cases hr
+
+/-- `push` of an owned value -/
+theorem step_push (cfg : Cfg) (v ty : Nat) (w : World) (s : Spec) (h : Rel v ty w s) :
+    ∃ s', Spec.Step s .push s' ∧ Rel v ty (step cfg (VOp.push.toOp v ty) w).1 s' ∧
+      (step cfg (VOp.push.toOp v ty) w).2.notUb := by
+  obtain ⟨hinv, hf, ⟨d, hv, hl, hty, habs, hcp, hbk⟩, hn⟩ := h
+  have hcore : Hist.Core (VOp.push.toOp v ty) := trivial
+  have hvalid : Hist.Valid w.vecs (VOp.push.toOp v ty) := ⟨⟨d, hv, hl⟩, by intro u i dp hh; cases hh⟩
+  obtain ⟨hinv', hnub⟩ := Hist.step_inv cfg _ w hinv hcore hvalid
+  have hg := hinv.good v d hv
+  cases hr : d.reserveOne with
+  | ok p =>
+    obtain ⟨d1, es⟩ := p
+    obtain ⟨hroom, hlen1, ha, hw1, hty1, _, _, _, _, hbk1, hl1⟩ := reserveOne_spec d d1 es hg.wf hr
+    have hvb : w.bump.vecs[v]? = some d := hv
+    have hex := pushUnchecked_plain w.bump v w.created (.wrapper w.created ty) (Val.Plain.wrapper _ _) d d1 es hvb hl hg.wf hr
+    have hstep : step cfg (VOp.push.toOp v ty) w =
+        ({ w.bump with vecs := w.bump.vecs.set v (d1.pushCell (.val w.created)), ev := es.reverse ++ w.bump.ev }, .ok []) := by
+      have hb : ({ w with created := w.created + 1 } : World) = w.bump := rfl
+      simp only [VOp.toOp, step, mkVal, WM.bind_apply, fresh, WM.pure_apply, push, hb, getVec_ok w.bump v d hvb hl, valTy, hty,
+        ne_eq, not_true_eq_false, if_false, hex]
+    refine ⟨_, Spec.Step.push s d1.cap (room_ok hg.wf habs hcp hbk hr), ?_, hnub⟩
+    rw [hstep] at hinv' ⊢
+    refine Rel.mk' hinv' (by simpa [World.bump] using hf) (d1.pushCell (.val w.created)) (set_get w.bump v d _ hvb)
+      (by simp [VecSt.pushCell, hl1, hl]) (by simp [VecSt.pushCell, hty1, hty]) ?_ (by simp [World.bump, hn])
+      (by simp [VecSt.pushCell]) (by simp [VecSt.pushCell, hbk1, hbk])
+    rw [VecSt.pushCell_abs d1 _ hw1, ha, habs, hn]; simp
+  | panic m =>
+    refine ⟨_, Spec.Step.pushRefused s (room_refused hg.wf habs hcp hr), ?_, hnub⟩
+    have hvb : w.bump.vecs[v]? = some d := hv
+    have hstep : step cfg (VOp.push.toOp v ty) w =
+        (logDrop d.hasDrop w.created { w.bump with fault := none }, .panic m) := by
+      have hb : ({ w with created := w.created + 1 } : World) = w.bump := rfl
+      simp only [VOp.toOp, step, mkVal, WM.bind_apply, fresh, WM.pure_apply, push, hb, getVec_ok w.bump v d hvb hl, valTy, hty,
+        ne_eq, not_true_eq_false, if_false, pushUnchecked, WM.onUnwind, vecOp, hr, WM.lift, valDrop, dropElem, WM.modify_apply]
+      cases d.hasDrop <;> simp [tick, logDrop, WM.pure_apply]
+    rw [hstep] at hinv' ⊢
+    exact Rel.mk' hinv' rfl d (by simpa [logDrop] using hvb) hl hty habs (by simp [logDrop, World.bump, hn]) hcp hbk
+  | ub m =>
+    have := reserveOne_notUb d
+    rw [hr] at this; exact this.elim
+
+/-- `push` through the typed view -/
+theorem step_tpush (cfg : Cfg) (v ty : Nat) (w : World) (s : Spec) (h : Rel v ty w s) :
+    ∃ s', Spec.Step s .tpush s' ∧ Rel v ty (step cfg (VOp.tpush.toOp v ty) w).1 s' ∧
+      (step cfg (VOp.tpush.toOp v ty) w).2.notUb := by
+  obtain ⟨hinv, hf, ⟨d, hv, hl, hty, habs, hcp, hbk⟩, hn⟩ := h
+  have hcore : Hist.Core (VOp.tpush.toOp v ty) := trivial
+  have hvalid : Hist.Valid w.vecs (VOp.tpush.toOp v ty) := ⟨d, hv, hl⟩
+  obtain ⟨hinv', hnub⟩ := Hist.step_inv cfg _ w hinv hcore hvalid
+  have hg := hinv.good v d hv
+  have hvb : w.bump.vecs[v]? = some d := hv
+  have hb : ({ w with created := w.created + 1 } : World) = w.bump := rfl
+  cases hr : d.reserveOne with
+  | ok p =>
+    obtain ⟨d1, es⟩ := p
+    obtain ⟨hroom, hlen1, ha, hw1, hty1, _, _, _, _, hbk1, hl1⟩ := reserveOne_spec d d1 es hg.wf hr
+    have hex := pushUnchecked_plain w.bump v w.created (.wrapper w.created d.ty) (Val.Plain.wrapper _ _) d d1 es hvb hl hg.wf hr
+    have hstep : step cfg (VOp.tpush.toOp v ty) w =
+        ({ w.bump with vecs := w.bump.vecs.set v (d1.pushCell (.val w.created)), ev := es.reverse ++ w.bump.ev }, .ok []) := by
+      simp only [VOp.toOp, step, WM.bind_apply, getVec_ok w v d hv hl, fresh, WM.pure_apply, hb, hex]
+    refine ⟨_, Spec.Step.tpush s d1.cap (room_ok hg.wf habs hcp hbk hr), ?_, hnub⟩
+    rw [hstep] at hinv' ⊢
+    refine Rel.mk' hinv' (by simpa [World.bump] using hf) (d1.pushCell (.val w.created)) (set_get w.bump v d _ hvb)
+      (by simp [VecSt.pushCell, hl1, hl]) (by simp [VecSt.pushCell, hty1, hty]) ?_ (by simp [World.bump, hn])
+      (by simp [VecSt.pushCell]) (by simp [VecSt.pushCell, hbk1, hbk])
+    rw [VecSt.pushCell_abs d1 _ hw1, ha, habs, hn]; simp
+  | panic m =>
+    refine ⟨_, Spec.Step.tpushRefused s (room_refused hg.wf habs hcp hr), ?_, hnub⟩
+    have hstep : step cfg (VOp.tpush.toOp v ty) w =
+        (logDrop d.hasDrop w.created { w.bump with fault := none }, .panic m) := by
+      simp only [VOp.toOp, step, WM.bind_apply, getVec_ok w v d hv hl, fresh, WM.pure_apply, hb, getVec_ok w.bump v d hvb hl,
+        pushUnchecked, WM.onUnwind, vecOp, hr, WM.lift, valDrop, dropElem, WM.modify_apply]
+      cases d.hasDrop <;> simp [tick, logDrop, WM.pure_apply]
+    rw [hstep] at hinv' ⊢
+    exact Rel.mk' hinv' rfl d (by simpa [logDrop] using hvb) hl hty habs (by simp [logDrop, World.bump, hn]) hcp hbk
+  | ub m =>
+    have := reserveOne_notUb d
+    rw [hr] at this; exact this.elim
+
 /-- the shared part of `insert` / typed `insert`: what `insert_unchecked` of a fresh wrapper does -/
 theorem insert_core (v ty i : Nat) (w : World) (s : Spec) (d : VecSt) (hinv : w.Inv) (hf : w.fault = none)
     (hv : w.vecs[v]? = some d) (hl : d.live = true) (hty : d.ty = ty) (habs : d.abs = s.items.map Cell.val)
+    (hcp : d.cap = s.cap) (hbk : VecSt.resizable d.bk = !s.fixed)
     (hn : w.created = s.next) (hinv' : (insertUnchecked v i (.wrapper w.created ty) w.bump).1.Inv) :
-    ∃ s', (s' = ⟨s.items.insertIdx i s.next, s.next + 1⟩ ∧ i ≤ s.items.length ∨ s' = ⟨s.items, s.next + 1⟩) ∧
+    ∃ s', ((∃ c, s' = { s with items := s.items.insertIdx i s.next, next := s.next + 1, cap := c } ∧
+              i ≤ s.items.length ∧ s.Room (some c)) ∨
+           (s' = { s with next := s.next + 1 } ∧ (s.items.length < i ∨ s.Room none))) ∧
       Rel v ty (insertUnchecked v i (.wrapper w.created ty) w.bump).1 s' := by
   have hg := hinv.good v d hv
   have hvb : w.bump.vecs[v]? = some d := hv
@@ -200,15 +298,16 @@ theorem insert_core (v ty i : Nat) (w : World) (s : Spec) (d : VecSt) (hinv : w.
   · cases hr : d.reserveOne with
     | ok p =>
       obtain ⟨d1, es⟩ := p
-      obtain ⟨hroom, hlen1, ha, hw1, hty1, _, _, _, _, _, hl1⟩ := reserveOne_spec d d1 es hg.wf hr
+      obtain ⟨hroom, hlen1, ha, hw1, hty1, _, _, _, _, hbk1, hl1⟩ := reserveOne_spec d d1 es hg.wf hr
       have hex := insertUnchecked_plain w.bump v i w.created (.wrapper w.created ty) (Val.Plain.wrapper _ _) d d1 es hvb hl hg.wf hi hr
-      refine ⟨⟨s.items.insertIdx i s.next, s.next + 1⟩, Or.inl ⟨rfl, by omega⟩, ?_⟩
+      refine ⟨_, Or.inl ⟨d1.cap, rfl, by omega, room_ok hg.wf habs hcp hbk hr⟩, ?_⟩
       rw [hex] at hinv' ⊢
       refine Rel.mk' hinv' (by simpa [World.bump] using hf) (d1.insertAt i (.val w.created)) (set_get w.bump v d _ hvb)
         (by simp [VecSt.insertAt, hl1, hl]) (by simp [VecSt.insertAt, hty1, hty]) ?_ (by simp [World.bump, hn])
+        (by simp [VecSt.insertAt]) (by simp [VecSt.insertAt, hbk1, hbk])
       rw [VecSt.insertAt_abs d1 i _ hw1 (by omega), ha, habs, hn, map_insertIdx']
     | panic m =>
-      refine ⟨⟨s.items, s.next + 1⟩, Or.inr rfl, ?_⟩
+      refine ⟨_, Or.inr ⟨rfl, Or.inr (room_refused hg.wf habs hcp hr)⟩, ?_⟩
       have hnot : ¬ i > d.len := by omega
       have hex : insertUnchecked v i (.wrapper w.created ty) w.bump =
           (logDrop d.hasDrop w.created { w.bump with fault := none }, .panic m) := by
@@ -216,11 +315,11 @@ theorem insert_core (v ty i : Nat) (w : World) (s : Spec) (d : VecSt) (hinv : w.
           WM.lift, valDrop, dropElem, WM.modify_apply]
         cases d.hasDrop <;> simp [tick, logDrop, WM.pure_apply]
       rw [hex] at hinv' ⊢
-      exact Rel.mk' hinv' rfl d (by simpa [logDrop] using hvb) hl hty habs (by simp [logDrop, World.bump, hn])
+      exact Rel.mk' hinv' rfl d (by simpa [logDrop] using hvb) hl hty habs (by simp [logDrop, World.bump, hn]) hcp hbk
     | ub m =>
       have := reserveOne_notUb d
       rw [hr] at this; exact this.elim
-  · refine ⟨⟨s.items, s.next + 1⟩, Or.inr rfl, ?_⟩
+  · refine ⟨_, Or.inr ⟨rfl, Or.inl (by omega)⟩, ?_⟩
     have hgt : i > d.len := by omega
     have hex : insertUnchecked v i (.wrapper w.created ty) w.bump =
         (logDrop d.hasDrop w.created { w.bump with fault := none }, .panic "Index out of range!") := by
@@ -228,7 +327,7 @@ theorem insert_core (v ty i : Nat) (w : World) (s : Spec) (d : VecSt) (hinv : w.
         valDrop, dropElem, WM.modify_apply]
       cases d.hasDrop <;> simp [tick, logDrop, WM.pure_apply]
     rw [hex] at hinv' ⊢
-    exact Rel.mk' hinv' rfl d (by simpa [logDrop] using hvb) hl hty habs (by simp [logDrop, World.bump, hn])
+    exact Rel.mk' hinv' rfl d (by simpa [logDrop] using hvb) hl hty habs (by simp [logDrop, World.bump, hn]) hcp hbk
 
 theorem fst_bind_pure {α β} (m : WM α) (b : β) (w : World) : ((do let _ ← m; pure b : WM β) w).1 = (m w).1 := by
   simp only [WM.bind_apply]
@@ -238,7 +337,7 @@ theorem fst_bind_pure {α β} (m : WM α) (b : β) (w : World) : ((do let _ ← 
 theorem step_insert (cfg : Cfg) (v ty i : Nat) (w : World) (s : Spec) (h : Rel v ty w s) :
     ∃ s', Spec.Step s (.insert i) s' ∧ Rel v ty (step cfg ((VOp.insert i).toOp v ty) w).1 s' ∧
       (step cfg ((VOp.insert i).toOp v ty) w).2.notUb := by
-  obtain ⟨hinv, hf, ⟨d, hv, hl, hty, habs⟩, hn⟩ := h
+  obtain ⟨hinv, hf, ⟨d, hv, hl, hty, habs, hcp, hbk⟩, hn⟩ := h
   have hcore : Hist.Core ((VOp.insert i).toOp v ty) := trivial
   have hvalid : Hist.Valid w.vecs ((VOp.insert i).toOp v ty) := ⟨⟨d, hv, hl⟩, by intro u j dp hh; cases hh⟩
   obtain ⟨hinv', hnub⟩ := Hist.step_inv cfg _ w hinv hcore hvalid
@@ -251,16 +350,16 @@ theorem step_insert (cfg : Cfg) (v ty i : Nat) (w : World) (s : Spec) (h : Rel v
         ne_eq, not_true_eq_false, if_false]
     rw [this, fst_bind_pure]
   rw [hfst] at hinv' ⊢
-  obtain ⟨s', hs', hrel⟩ := insert_core v ty i w s d hinv hf hv hl hty habs hn hinv'
+  obtain ⟨s', hs', hrel⟩ := insert_core v ty i w s d hinv hf hv hl hty habs hcp hbk hn hinv'
   refine ⟨s', ?_, hrel, hnub⟩
-  rcases hs' with ⟨rfl, hi⟩ | rfl
-  · exact Spec.Step.insert s i hi
-  · exact Spec.Step.insertRefused s i
+  rcases hs' with ⟨c, rfl, hi, hroom⟩ | ⟨rfl, hno⟩
+  · exact Spec.Step.insert s i c hi hroom
+  · exact Spec.Step.insertRefused s i hno
 
 theorem step_tinsert (cfg : Cfg) (v ty i : Nat) (w : World) (s : Spec) (h : Rel v ty w s) :
     ∃ s', Spec.Step s (.tinsert i) s' ∧ Rel v ty (step cfg ((VOp.tinsert i).toOp v ty) w).1 s' ∧
       (step cfg ((VOp.tinsert i).toOp v ty) w).2.notUb := by
-  obtain ⟨hinv, hf, ⟨d, hv, hl, hty, habs⟩, hn⟩ := h
+  obtain ⟨hinv, hf, ⟨d, hv, hl, hty, habs, hcp, hbk⟩, hn⟩ := h
   have hcore : Hist.Core ((VOp.tinsert i).toOp v ty) := trivial
   have hvalid : Hist.Valid w.vecs ((VOp.tinsert i).toOp v ty) := ⟨d, hv, hl⟩
   obtain ⟨hinv', hnub⟩ := Hist.step_inv cfg _ w hinv hcore hvalid
@@ -271,11 +370,11 @@ theorem step_tinsert (cfg : Cfg) (v ty i : Nat) (w : World) (s : Spec) (h : Rel 
       simp only [VOp.toOp, step, WM.bind_apply, getVec_ok w v d hv hl, fresh, WM.pure_apply, hb, hty]
     rw [this, fst_bind_pure]
   rw [hfst] at hinv' ⊢
-  obtain ⟨s', hs', hrel⟩ := insert_core v ty i w s d hinv hf hv hl hty habs hn hinv'
+  obtain ⟨s', hs', hrel⟩ := insert_core v ty i w s d hinv hf hv hl hty habs hcp hbk hn hinv'
   refine ⟨s', ?_, hrel, hnub⟩
-  rcases hs' with ⟨rfl, hi⟩ | rfl
-  · exact Spec.Step.tinsert s i hi
-  · exact Spec.Step.tinsertRefused s i
+  rcases hs' with ⟨c, rfl, hi, hroom⟩ | ⟨rfl, hno⟩
+  · exact Spec.Step.tinsert s i c hi hroom
+  · exact Spec.Step.tinsertRefused s i hno
 
 /-- a cell of the visible part is the abstract item at that index -/
 theorem cell_of_abs {d : VecSt} {items : List Nat} (hg : d.Good) (habs : d.abs = items.map Cell.val) (j : Nat)
@@ -296,7 +395,7 @@ theorem cell_of_abs {d : VecSt} {items : List Nat} (hg : d.Good) (habs : d.abs =
 theorem step_remove (cfg : Cfg) (v ty i : Nat) (w : World) (s : Spec) (h : Rel v ty w s) :
     ∃ s', Spec.Step s (.remove i) s' ∧ Rel v ty (step cfg ((VOp.remove i).toOp v ty) w).1 s' ∧
       (step cfg ((VOp.remove i).toOp v ty) w).2.notUb := by
-  obtain ⟨hinv, hf, ⟨d, hv, hl, hty, habs⟩, hn⟩ := h
+  obtain ⟨hinv, hf, ⟨d, hv, hl, hty, habs, hcp, hbk⟩, hn⟩ := h
   have hcore : Hist.Core ((VOp.remove i).toOp v ty) := trivial
   have hvalid : Hist.Valid w.vecs ((VOp.remove i).toOp v ty) := ⟨⟨d, hv, hl⟩, trivial⟩
   obtain ⟨hinv', hnub⟩ := Hist.step_inv cfg _ w hinv hcore hvalid
@@ -305,22 +404,23 @@ theorem step_remove (cfg : Cfg) (v ty i : Nat) (w : World) (s : Spec) (h : Rel v
   by_cases hi : i < d.len
   · have hc := cell_of_abs hg habs i hi
     have hex := remove_drop_exec cfg w v i _ d hv hl hg.wf hi hc hf
-    refine ⟨⟨s.items.eraseIdx i, s.next⟩, Spec.Step.remove s i (by omega), ?_, hnub⟩
+    refine ⟨{ s with items := s.items.eraseIdx i }, Spec.Step.remove s i (by omega), ?_, hnub⟩
     simp only [VOp.toOp] at hinv' ⊢
     rw [hex] at hinv' ⊢
     refine Rel.mk' hinv' (by simpa [logDrop] using hf) (d.removeAt i) (by simpa [logDrop] using set_get w v d _ hv)
       (by simp [VecSt.removeAt, hl]) (by simp [VecSt.removeAt, hty]) ?_ (by simp [logDrop, hn])
+      (by simp [VecSt.removeAt, hcp]) (by simp [VecSt.removeAt, hbk])
     rw [VecSt.removeAt_abs d i hg.wf hi, habs, map_eraseIdx']
   · refine ⟨s, Spec.Step.removeOut s i (by omega), ?_, hnub⟩
     have hex : step cfg ((VOp.remove i).toOp v ty) w = ({ w with fault := none }, .panic "Index out of range!") := by
       simp only [VOp.toOp, step, WM.bind_apply, getVec_ok w v d hv hl, hi, if_false, WM.panic_apply]
     rw [hex] at hinv' ⊢
-    exact Rel.mk' hinv' rfl d hv hl hty habs hn
+    exact Rel.mk' hinv' rfl d hv hl hty habs hn hcp hbk
 
 theorem step_swapRemove (cfg : Cfg) (v ty i : Nat) (w : World) (s : Spec) (h : Rel v ty w s) :
     ∃ s', Spec.Step s (.swapRemove i) s' ∧ Rel v ty (step cfg ((VOp.swapRemove i).toOp v ty) w).1 s' ∧
       (step cfg ((VOp.swapRemove i).toOp v ty) w).2.notUb := by
-  obtain ⟨hinv, hf, ⟨d, hv, hl, hty, habs⟩, hn⟩ := h
+  obtain ⟨hinv, hf, ⟨d, hv, hl, hty, habs, hcp, hbk⟩, hn⟩ := h
   have hcore : Hist.Core ((VOp.swapRemove i).toOp v ty) := trivial
   have hvalid : Hist.Valid w.vecs ((VOp.swapRemove i).toOp v ty) := ⟨⟨d, hv, hl⟩, trivial⟩
   obtain ⟨hinv', hnub⟩ := Hist.step_inv cfg _ w hinv hcore hvalid
@@ -334,18 +434,19 @@ theorem step_swapRemove (cfg : Cfg) (v ty i : Nat) (w : World) (s : Spec) (h : R
     rw [hex] at hinv' ⊢
     refine Rel.mk' hinv' (by simpa [logDrop] using hf) (d.swapRemoveAt i) (by simpa [logDrop] using set_get w v d _ hv)
       (by simp [VecSt.swapRemoveAt, hl]) (by simp [VecSt.swapRemoveAt, hty]) ?_ (by simp [logDrop, hn])
+      (by simp [VecSt.swapRemoveAt, hcp]) (by simp [VecSt.swapRemoveAt, hbk])
     rw [VecSt.swapRemoveAt_abs d i hg.wf hi, habs, cell_of_abs hg habs (d.len - 1) (by omega), hlen]
     simp [List.map_take, List.map_set]
   · refine ⟨s, Spec.Step.swapRemoveOut s i (by omega), ?_, hnub⟩
     have hex : step cfg ((VOp.swapRemove i).toOp v ty) w = ({ w with fault := none }, .panic "Index out of range!") := by
       simp only [VOp.toOp, step, WM.bind_apply, getVec_ok w v d hv hl, hi, if_false, WM.panic_apply]
     rw [hex] at hinv' ⊢
-    exact Rel.mk' hinv' rfl d hv hl hty habs hn
+    exact Rel.mk' hinv' rfl d hv hl hty habs hn hcp hbk
 
 theorem step_pop (cfg : Cfg) (v ty : Nat) (w : World) (s : Spec) (h : Rel v ty w s) :
     ∃ s', Spec.Step s .pop s' ∧ Rel v ty (step cfg (VOp.pop.toOp v ty) w).1 s' ∧
       (step cfg (VOp.pop.toOp v ty) w).2.notUb := by
-  obtain ⟨hinv, hf, ⟨d, hv, hl, hty, habs⟩, hn⟩ := h
+  obtain ⟨hinv, hf, ⟨d, hv, hl, hty, habs, hcp, hbk⟩, hn⟩ := h
   have hcore : Hist.Core (VOp.pop.toOp v ty) := trivial
   have hvalid : Hist.Valid w.vecs (VOp.pop.toOp v ty) := ⟨⟨d, hv, hl⟩, trivial⟩
   obtain ⟨hinv', hnub⟩ := Hist.step_inv cfg _ w hinv hcore hvalid
@@ -359,13 +460,13 @@ theorem step_pop (cfg : Cfg) (v ty : Nat) (w : World) (s : Spec) (h : Rel v ty w
     have : s.items = [] := by cases hs : s.items with
       | nil => rfl
       | cons x xs => rw [hs] at hlen; simp at hlen; omega
-    exact Rel.mk' hinv hf d hv hl hty (by rw [habs, this]; rfl) hn
+    exact Rel.mk' hinv hf d hv hl hty (by rw [habs, this]; rfl) hn hcp hbk
   · have hc := cell_of_abs hg habs (d.len - 1) (by omega)
     have hex := pop_drop_exec cfg w v _ d hv hl hg.wf h0 hc hf
     simp only [VOp.toOp] at hinv' ⊢
     rw [hex] at hinv' ⊢
     refine Rel.mk' hinv' (by simpa [logDrop] using hf) { d with len := d.len - 1 } (by simpa [logDrop] using set_get w v d _ hv)
-      hl hty ?_ (by simp [logDrop, hn])
+      hl hty ?_ (by simp [logDrop, hn]) hcp hbk
     have h1 := hg.wf.len_le
     have : ({ d with len := d.len - 1 } : VecSt).abs = d.abs.take (d.len - 1) := by
       simp only [VecSt.abs, List.take_take]
@@ -375,7 +476,7 @@ theorem step_pop (cfg : Cfg) (v ty : Nat) (w : World) (s : Spec) (h : Rel v ty w
 theorem step_clear (cfg : Cfg) (v ty : Nat) (w : World) (s : Spec) (h : Rel v ty w s) :
     ∃ s', Spec.Step s .clear s' ∧ Rel v ty (step cfg (VOp.clear.toOp v ty) w).1 s' ∧
       (step cfg (VOp.clear.toOp v ty) w).2.notUb := by
-  obtain ⟨hinv, hf, ⟨d, hv, hl, hty, habs⟩, hn⟩ := h
+  obtain ⟨hinv, hf, ⟨d, hv, hl, hty, habs, hcp, hbk⟩, hn⟩ := h
   have hcore : Hist.Core (VOp.clear.toOp v ty) := trivial
   have hvalid : Hist.Valid w.vecs (VOp.clear.toOp v ty) := ⟨d, hv, hl⟩
   obtain ⟨hinv', hnub⟩ := Hist.step_inv cfg _ w hinv hcore hvalid
@@ -386,38 +487,12 @@ theorem step_clear (cfg : Cfg) (v ty : Nat) (w : World) (s : Spec) (h : Rel v ty
   rw [hex] at hinv' ⊢
   have hlt : v < w.vecs.length := (List.getElem?_eq_some_iff.mp hv).1
   refine Rel.mk' hinv' (by simpa using hf) { d with len := 0 } (by simp [World.upd, hlt]) hl hty (by simp [VecSt.abs])
-    (by simp [hn])
-
-/-- the refusal alternative is only for a storage that refuses: with room (`len < capacity`) a `push` appends and an
-in-range `insert` inserts -/
-theorem push_with_room (cfg : Cfg) (v ty : Nat) (w : World) (s : Spec) (h : Rel v ty w s) (d : VecSt)
-    (hv : w.vecs[v]? = some d) (hroom : d.len < d.cap) :
-    Rel v ty (step cfg (VOp.push.toOp v ty) w).1 ⟨s.items ++ [s.next], s.next + 1⟩ := by
-  obtain ⟨hinv, hf, ⟨d', hv', hl, hty, habs⟩, hn⟩ := h
-  rw [hv] at hv'; cases hv'
-  have hcore : Hist.Core (VOp.push.toOp v ty) := trivial
-  have hvalid : Hist.Valid w.vecs (VOp.push.toOp v ty) := ⟨⟨d, hv, hl⟩, by intro u i dp hh; cases hh⟩
-  obtain ⟨hinv', _⟩ := Hist.step_inv cfg _ w hinv hcore hvalid
-  have hg := hinv.good v d hv
-  have hr : d.reserveOne = .ok (d, []) := by
-    have : ¬ d.len = d.cap := by omega
-    simp [VecSt.reserveOne, this]
-  have hvb : w.bump.vecs[v]? = some d := hv
-  have hex := pushUnchecked_plain w.bump v w.created (.wrapper w.created ty) (Val.Plain.wrapper _ _) d d [] hvb hl hg.wf hr
-  have hb : ({ w with created := w.created + 1 } : World) = w.bump := rfl
-  have hstep : step cfg (VOp.push.toOp v ty) w =
-      ({ w.bump with vecs := w.bump.vecs.set v (d.pushCell (.val w.created)), ev := [].reverse ++ w.bump.ev }, .ok []) := by
-    simp only [VOp.toOp, step, mkVal, WM.bind_apply, fresh, WM.pure_apply, push, hb, getVec_ok w.bump v d hvb hl, valTy, hty,
-      ne_eq, not_true_eq_false, if_false, hex]
-  rw [hstep] at hinv' ⊢
-  refine Rel.mk' hinv' (by simpa [World.bump] using hf) (d.pushCell (.val w.created)) (set_get w.bump v d _ hvb)
-    (by simp [VecSt.pushCell, hl]) (by simp [VecSt.pushCell, hty]) ?_ (by simp [World.bump, hn])
-  rw [VecSt.pushCell_abs d _ hg.wf, habs, hn]; simp
+    (by simp [hn]) hcp hbk
 
 theorem step_drain (cfg : Cfg) (v ty a b : Nat) (w : World) (s : Spec) (h : Rel v ty w s) :
     ∃ s', Spec.Step s (.drain a b) s' ∧ Rel v ty (step cfg ((VOp.drain a b).toOp v ty) w).1 s' ∧
       (step cfg ((VOp.drain a b).toOp v ty) w).2.notUb := by
-  obtain ⟨hinv, hf, ⟨d, hv, hl, hty, habs⟩, hn⟩ := h
+  obtain ⟨hinv, hf, ⟨d, hv, hl, hty, habs, hcp, hbk⟩, hn⟩ := h
   have hcore : Hist.Core ((VOp.drain a b).toOp v ty) := trivial
   have hvalid : Hist.Valid w.vecs ((VOp.drain a b).toOp v ty) := ⟨⟨d, hv, hl⟩, by intro p hp; cases hp⟩
   obtain ⟨hinv', hnub⟩ := Hist.step_inv cfg _ w hinv hcore hvalid
@@ -446,6 +521,7 @@ theorem step_drain (cfg : Cfg) (v ty a b : Nat) (w : World) (s : Spec) (h : Rel 
     refine ⟨_, Spec.Step.drain s a b ⟨hab, by omega⟩, ?_, hnub⟩
     rw [hstep] at hinv' ⊢
     refine Rel.mk' hinv' (by simpa using hf) (d0.drainClose a b d.len) (by simp [World.upd, hlt]) hl hty ?_ (by simp [hn])
+      (by simp [VecSt.drainClose, d0, hcp]) (by simp [VecSt.drainClose, d0, hbk])
     rw [VecSt.drainClose_abs d0 a b d.len hab hbl h1]
     have : d.cells.take d.len = s.items.map Cell.val := habs
     show d.cells.take a ++ (d.cells.take d.len).drop b = _
@@ -460,7 +536,7 @@ theorem step_drain (cfg : Cfg) (v ty a b : Nat) (w : World) (s : Spec) (h : Rel 
       · simp [hab, WM.lift]
     refine ⟨s, Spec.Step.drainOut s a b (by omega), ?_, hnub⟩
     rw [hex] at hinv' ⊢
-    exact Rel.mk' hinv' rfl d hv hl hty habs hn
+    exact Rel.mk' hinv' rfl d hv hl hty habs hn hcp hbk
 
 /-- typed `remove(i)` with `i < len`: the element leaves into the caller's hands, nothing is destroyed -/
 theorem tremove_exec (cfg : Cfg) (w : World) (v i id : Nat) (d : VecSt)
@@ -511,7 +587,7 @@ theorem tpop_exec (cfg : Cfg) (w : World) (v id : Nat) (d : VecSt)
 theorem step_tremove (cfg : Cfg) (v ty i : Nat) (w : World) (s : Spec) (h : Rel v ty w s) :
     ∃ s', Spec.Step s (.tremove i) s' ∧ Rel v ty (step cfg ((VOp.tremove i).toOp v ty) w).1 s' ∧
       (step cfg ((VOp.tremove i).toOp v ty) w).2.notUb := by
-  obtain ⟨hinv, hf, ⟨d, hv, hl, hty, habs⟩, hn⟩ := h
+  obtain ⟨hinv, hf, ⟨d, hv, hl, hty, habs, hcp, hbk⟩, hn⟩ := h
   have hcore : Hist.Core ((VOp.tremove i).toOp v ty) := trivial
   have hvalid : Hist.Valid w.vecs ((VOp.tremove i).toOp v ty) := ⟨d, hv, hl⟩
   obtain ⟨hinv', hnub⟩ := Hist.step_inv cfg _ w hinv hcore hvalid
@@ -520,22 +596,23 @@ theorem step_tremove (cfg : Cfg) (v ty i : Nat) (w : World) (s : Spec) (h : Rel 
   by_cases hi : i < d.len
   · have hc := cell_of_abs hg habs i hi
     have hex := tremove_exec cfg w v i _ d hv hl hg.wf hi hc
-    refine ⟨⟨s.items.eraseIdx i, s.next⟩, Spec.Step.tremove s i (by omega), ?_, hnub⟩
+    refine ⟨{ s with items := s.items.eraseIdx i }, Spec.Step.tremove s i (by omega), ?_, hnub⟩
     simp only [VOp.toOp] at hinv' ⊢
     rw [hex] at hinv' ⊢
     refine Rel.mk' hinv' hf (d.removeAt i) (set_get w v d _ hv)
       (by simp [VecSt.removeAt, hl]) (by simp [VecSt.removeAt, hty]) ?_ hn
+      (by simp [VecSt.removeAt, hcp]) (by simp [VecSt.removeAt, hbk])
     rw [VecSt.removeAt_abs d i hg.wf hi, habs, map_eraseIdx']
   · refine ⟨s, Spec.Step.tremoveOut s i (by omega), ?_, hnub⟩
     have hex : step cfg ((VOp.tremove i).toOp v ty) w = ({ w with fault := none }, .panic "Index out of range!") := by
       simp only [VOp.toOp, step, WM.bind_apply, getVec_ok w v d hv hl, hi, if_false, WM.panic_apply]
     rw [hex] at hinv' ⊢
-    exact Rel.mk' hinv' rfl d hv hl hty habs hn
+    exact Rel.mk' hinv' rfl d hv hl hty habs hn hcp hbk
 
 theorem step_tswapRemove (cfg : Cfg) (v ty i : Nat) (w : World) (s : Spec) (h : Rel v ty w s) :
     ∃ s', Spec.Step s (.tswapRemove i) s' ∧ Rel v ty (step cfg ((VOp.tswapRemove i).toOp v ty) w).1 s' ∧
       (step cfg ((VOp.tswapRemove i).toOp v ty) w).2.notUb := by
-  obtain ⟨hinv, hf, ⟨d, hv, hl, hty, habs⟩, hn⟩ := h
+  obtain ⟨hinv, hf, ⟨d, hv, hl, hty, habs, hcp, hbk⟩, hn⟩ := h
   have hcore : Hist.Core ((VOp.tswapRemove i).toOp v ty) := trivial
   have hvalid : Hist.Valid w.vecs ((VOp.tswapRemove i).toOp v ty) := ⟨d, hv, hl⟩
   obtain ⟨hinv', hnub⟩ := Hist.step_inv cfg _ w hinv hcore hvalid
@@ -549,18 +626,19 @@ theorem step_tswapRemove (cfg : Cfg) (v ty i : Nat) (w : World) (s : Spec) (h : 
     rw [hex] at hinv' ⊢
     refine Rel.mk' hinv' hf (d.swapRemoveAt i) (set_get w v d _ hv)
       (by simp [VecSt.swapRemoveAt, hl]) (by simp [VecSt.swapRemoveAt, hty]) ?_ hn
+      (by simp [VecSt.swapRemoveAt, hcp]) (by simp [VecSt.swapRemoveAt, hbk])
     rw [VecSt.swapRemoveAt_abs d i hg.wf hi, habs, cell_of_abs hg habs (d.len - 1) (by omega), hlen]
     simp [List.map_take, List.map_set]
   · refine ⟨s, Spec.Step.tswapRemoveOut s i (by omega), ?_, hnub⟩
     have hex : step cfg ((VOp.tswapRemove i).toOp v ty) w = ({ w with fault := none }, .panic "Index out of range!") := by
       simp only [VOp.toOp, step, WM.bind_apply, getVec_ok w v d hv hl, hi, if_false, WM.panic_apply]
     rw [hex] at hinv' ⊢
-    exact Rel.mk' hinv' rfl d hv hl hty habs hn
+    exact Rel.mk' hinv' rfl d hv hl hty habs hn hcp hbk
 
 theorem step_tpop (cfg : Cfg) (v ty : Nat) (w : World) (s : Spec) (h : Rel v ty w s) :
     ∃ s', Spec.Step s .tpop s' ∧ Rel v ty (step cfg (VOp.tpop.toOp v ty) w).1 s' ∧
       (step cfg (VOp.tpop.toOp v ty) w).2.notUb := by
-  obtain ⟨hinv, hf, ⟨d, hv, hl, hty, habs⟩, hn⟩ := h
+  obtain ⟨hinv, hf, ⟨d, hv, hl, hty, habs, hcp, hbk⟩, hn⟩ := h
   have hcore : Hist.Core (VOp.tpop.toOp v ty) := trivial
   have hvalid : Hist.Valid w.vecs (VOp.tpop.toOp v ty) := ⟨d, hv, hl⟩
   obtain ⟨hinv', hnub⟩ := Hist.step_inv cfg _ w hinv hcore hvalid
@@ -574,20 +652,264 @@ theorem step_tpop (cfg : Cfg) (v ty : Nat) (w : World) (s : Spec) (h : Rel v ty 
     have : s.items = [] := by cases hs : s.items with
       | nil => rfl
       | cons x xs => rw [hs] at hlen; simp at hlen; omega
-    exact Rel.mk' hinv hf d hv hl hty (by rw [habs, this]; rfl) hn
+    exact Rel.mk' hinv hf d hv hl hty (by rw [habs, this]; rfl) hn hcp hbk
   · have hc := cell_of_abs hg habs (d.len - 1) (by omega)
     have hex := tpop_exec cfg w v _ d hv hl hg.wf h0 hc
     simp only [VOp.toOp] at hinv' ⊢
     rw [hex] at hinv' ⊢
-    refine Rel.mk' hinv' hf { d with len := d.len - 1 } (set_get w v d _ hv) hl hty ?_ hn
+    refine Rel.mk' hinv' hf { d with len := d.len - 1 } (set_get w v d _ hv) hl hty ?_ hn hcp hbk
     have h1 := hg.wf.len_le
     have : ({ d with len := d.len - 1 } : VecSt).abs = d.abs.take (d.len - 1) := by
       simp only [VecSt.abs, List.take_take]
       congr 1; omega
     rw [this, habs, hlen, List.map_take]
 
+/-- a capacity request on `v` (`vecOp`): the items, type, storage kind stay; what the request does to the capacity is
+the caller's business -/
+theorem step_capOp (cfg : Cfg) (v ty : Nat) (w : World) (s : Spec) (h : Rel v ty w s) (op : VOp)
+    (f : VecSt → Res (VecSt × List Event))
+    (hop : step cfg (op.toOp v ty) w = (do vecOp v f; pure [] : WM Out) w)
+    (hcore : Hist.Core (op.toOp v ty))
+    (hvalid : ∀ d, w.vecs[v]? = some d → d.live = true → VecSt.resizable d.bk = !s.fixed → Hist.Valid w.vecs (op.toOp v ty))
+    (hok : ∀ d d' es, d.WF → s.items.length = d.len → d.cap = s.cap → VecSt.resizable d.bk = !s.fixed →
+      f d = .ok (d', es) →
+      d'.abs = d.abs ∧ d'.ty = d.ty ∧ d'.bk = d.bk ∧ d'.live = d.live ∧ Spec.Step s op { s with cap := d'.cap })
+    (hpanic : ∀ d m, d.WF → s.items.length = d.len → d.cap = s.cap → VecSt.resizable d.bk = !s.fixed →
+      f d = .panic m → Spec.Step s op s) :
+    ∃ s', Spec.Step s op s' ∧ Rel v ty (step cfg (op.toOp v ty) w).1 s' ∧ (step cfg (op.toOp v ty) w).2.notUb := by
+  obtain ⟨hinv, hf, ⟨d, hv, hl, hty, habs, hcp, hbk⟩, hn⟩ := h
+  obtain ⟨hinv', hnub⟩ := Hist.step_inv cfg _ w hinv hcore (hvalid d hv hl hbk)
+  have hg := hinv.good v d hv
+  have hlen := abs_len hg.wf habs
+  have hlt : v < w.vecs.length := (List.getElem?_eq_some_iff.mp hv).1
+  cases hfd : f d with
+  | ok p =>
+    obtain ⟨d', es⟩ := p
+    obtain ⟨ha, hty', hbk', hl', hstep⟩ := hok d d' es hg.wf hlen hcp hbk hfd
+    have hex : step cfg (op.toOp v ty) w = ({ (w.upd v d') with ev := es.reverse ++ w.ev }, .ok []) := by
+      rw [hop]
+      simp only [WM.bind_apply, vecOp, getVec_ok w v d hv hl, hfd, WM.lift, setVec_apply, emit, WM.modify_apply,
+        WM.pure_apply]
+      rfl
+    refine ⟨_, hstep, ?_, hnub⟩
+    rw [hex] at hinv' ⊢
+    exact Rel.mk' hinv' hf d' (by simp [World.upd, hlt]) (by rw [hl', hl]) (by rw [hty', hty]) (by rw [ha, habs]) hn rfl
+      (by rw [hbk', hbk])
+  | panic m =>
+    have hex : step cfg (op.toOp v ty) w = ({ w with fault := none }, .panic m) := by
+      rw [hop]
+      simp only [WM.bind_apply, vecOp_panic w v d f m hv hl hfd]
+    refine ⟨s, hpanic d m hg.wf hlen hcp hbk hfd, ?_, hnub⟩
+    rw [hex] at hinv' ⊢
+    exact Rel.mk' hinv' rfl d hv hl hty habs hn hcp hbk
+  | ub m =>
+    have hex : step cfg (op.toOp v ty) w = (w, .ub m) := by
+      rw [hop]
+      simp only [WM.bind_apply, vecOp, getVec_ok w v d hv hl, hfd, WM.lift]
+    rw [hex] at hnub
+    exact hnub.elim
+
+theorem resizable_of_not_fixed {d : VecSt} {s : Spec} (hbk : VecSt.resizable d.bk = !s.fixed) (hfx : s.fixed = false) :
+    VecSt.resizable d.bk = true := by rw [hbk, hfx]; rfl
+
+theorem step_reserve (cfg : Cfg) (v ty n : Nat) (w : World) (s : Spec) (h : Rel v ty w s) :
+    ∃ s', Spec.Step s (.reserve n) s' ∧ Rel v ty (step cfg ((VOp.reserve n).toOp v ty) w).1 s' ∧
+      (step cfg ((VOp.reserve n).toOp v ty) w).2.notUb := by
+  refine step_capOp cfg v ty w s h (.reserve n) (fun x => x.reserve n) rfl trivial
+    (fun d hv hl _ => ⟨d, hv, hl⟩) ?_ ?_
+  · intro d d' es hwf hlen hcp hbk hfd
+    have hlc := hwf.len_le_cap
+    unfold VecSt.reserve at hfd
+    cases hca : checkedAdd d.len n with
+    | ok r =>
+      obtain ⟨hr, _⟩ := checkedAdd_ok _ _ _ hca
+      rw [hca] at hfd
+      simp only at hfd
+      split at hfd
+      · rename_i hlt
+        obtain ⟨hc, _, ha, _, hty', _, _, _, _, hbk', hlv'⟩ := memExpand_spec d d' _ es hwf hfd
+        have hrz := memExpand_resizable d d' _ es hfd
+        refine ⟨ha, hty', hbk', hlv', Spec.Step.reserveGrow s n d'.cap (by omega) ?_ (by omega)⟩
+        rw [hrz] at hbk; cases hfx : s.fixed <;> simp [hfx] at hbk ⊢
+      · rename_i hnlt
+        cases hfd
+        have : ({ s with cap := d.cap } : Spec) = s := by rw [hcp]
+        rw [this]
+        exact ⟨rfl, rfl, rfl, rfl, Spec.Step.reserveFits s n (by omega)⟩
+    | panic m => rw [hca] at hfd; cases hfd
+    | ub m => rw [hca] at hfd; cases hfd
+  · intro d m hwf hlen hcp hbk hfd
+    have hlc := hwf.len_le_cap
+    by_cases hfit : s.items.length + n ≤ s.cap
+    · -- a request that fits never panics ... unless `len + n` is not representable
+      unfold VecSt.reserve at hfd
+      cases hca : checkedAdd d.len n with
+      | ok r =>
+        obtain ⟨hr, _⟩ := checkedAdd_ok _ _ _ hca
+        rw [hca] at hfd
+        have : ¬ d.cap < r := by omega
+        simp [this] at hfd
+      | panic m' => exact Spec.Step.reserveFits s n hfit
+      | ub m' => rw [hca] at hfd; cases hfd
+    · exact Spec.Step.reserveRefused s n (by omega)
+
+theorem step_reserveExact (cfg : Cfg) (v ty n : Nat) (w : World) (s : Spec) (h : Rel v ty w s) (hfx : s.fixed = false) :
+    ∃ s', Spec.Step s (.reserveExact n) s' ∧ Rel v ty (step cfg ((VOp.reserveExact n).toOp v ty) w).1 s' ∧
+      (step cfg ((VOp.reserveExact n).toOp v ty) w).2.notUb := by
+  refine step_capOp cfg v ty w s h (.reserveExact n) (fun x => x.reserveExact n) rfl trivial
+    (fun d hv hl hbk => ⟨d, hv, hl, resizable_of_not_fixed hbk hfx⟩) ?_ ?_
+  · intro d d' es hwf hlen hcp hbk hfd
+    have hlc := hwf.len_le_cap
+    unfold VecSt.reserveExact at hfd
+    cases hca : checkedAdd d.len n with
+    | ok r =>
+      obtain ⟨hr, _⟩ := checkedAdd_ok _ _ _ hca
+      rw [hca] at hfd
+      simp only at hfd
+      split at hfd
+      · rename_i hlt
+        unfold VecSt.memExpandExact at hfd
+        obtain ⟨hc, _, ha, _, hty', _, _, _, _, hbk', hlv'⟩ := memResize_spec d d' _ es hwf (by omega) hfd
+        refine ⟨ha, hty', hbk', hlv', ?_⟩
+        have : d'.cap = s.items.length + n := by omega
+        rw [this]
+        exact Spec.Step.reserveExactGrow s n (by omega)
+      · rename_i hnlt
+        cases hfd
+        have : ({ s with cap := d.cap } : Spec) = s := by rw [hcp]
+        rw [this]
+        exact ⟨rfl, rfl, rfl, rfl, Spec.Step.reserveExactFits s n (by omega)⟩
+    | panic m => rw [hca] at hfd; cases hfd
+    | ub m => rw [hca] at hfd; cases hfd
+  · intro d m hwf hlen hcp hbk hfd
+    have hlc := hwf.len_le_cap
+    by_cases hfit : s.items.length + n ≤ s.cap
+    · exact Spec.Step.reserveExactFits s n hfit
+    · exact Spec.Step.reserveExactRefused s n (by omega)
+
+theorem step_shrinkToFit (cfg : Cfg) (v ty : Nat) (w : World) (s : Spec) (h : Rel v ty w s) (hfx : s.fixed = false) :
+    ∃ s', Spec.Step s .shrinkToFit s' ∧ Rel v ty (step cfg (VOp.shrinkToFit.toOp v ty) w).1 s' ∧
+      (step cfg (VOp.shrinkToFit.toOp v ty) w).2.notUb := by
+  refine step_capOp cfg v ty w s h .shrinkToFit VecSt.shrinkToFit rfl trivial
+    (fun d hv hl hbk => ⟨d, hv, hl, resizable_of_not_fixed hbk hfx⟩) ?_ ?_
+  · intro d d' es hwf hlen hcp hbk hfd
+    unfold VecSt.shrinkToFit at hfd
+    obtain ⟨hc, _, ha, _, hty', _, _, _, _, hbk', hlv'⟩ := memResize_spec d d' _ es hwf (Nat.le_refl _) hfd
+    refine ⟨ha, hty', hbk', hlv', ?_⟩
+    rw [hc, ← hlen]
+    exact Spec.Step.shrinkToFit s
+  · intro d m _ _ _ _ _
+    exact Spec.Step.shrinkToFitRefused s
+
+theorem step_shrinkTo (cfg : Cfg) (v ty n : Nat) (w : World) (s : Spec) (h : Rel v ty w s) (hfx : s.fixed = false) :
+    ∃ s', Spec.Step s (.shrinkTo n) s' ∧ Rel v ty (step cfg ((VOp.shrinkTo n).toOp v ty) w).1 s' ∧
+      (step cfg ((VOp.shrinkTo n).toOp v ty) w).2.notUb := by
+  refine step_capOp cfg v ty w s h (.shrinkTo n) (fun x => x.shrinkTo n) rfl trivial
+    (fun d hv hl hbk => ⟨d, hv, hl, resizable_of_not_fixed hbk hfx⟩) ?_ ?_
+  · intro d d' es hwf hlen hcp hbk hfd
+    have hlc := hwf.len_le_cap
+    unfold VecSt.shrinkTo at hfd
+    obtain ⟨hc, _, ha, _, hty', _, _, _, _, hbk', hlv'⟩ := memResize_spec d d' _ es hwf (by omega) hfd
+    refine ⟨ha, hty', hbk', hlv', ?_⟩
+    rw [hc, hcp, ← hlen]
+    exact Spec.Step.shrinkTo s n
+  · intro d m _ _ _ _ _
+    exact Spec.Step.shrinkToRefused s n
+
+/-- typed `swap(i, j)` in range: the two cells change places -/
+theorem tswap_exec (cfg : Cfg) (w : World) (v i j : Nat) (d : VecSt)
+    (hv : w.vecs[v]? = some d) (hl : d.live = true) (hwf : d.WF) (hi : i < d.len) (hj : j < d.len) :
+    step cfg (.tswap v i j) w =
+      (w.upd v { d with cells := (d.cells.set i (d.cells.get j)).set j (d.cells.get i) }, .ok []) := by
+  have hlt : v < w.vecs.length := (List.getElem?_eq_some_iff.mp hv).1
+  have hd : w.vecs[v] = d := (List.getElem?_eq_some_iff.mp hv).2
+  have h1 := hwf.len_le; have h2 := hwf.cells_le
+  have hb1 : i < d.cap := by omega
+  have hb2 : j < d.cap := by omega
+  have e1 : d.cells.ensure (i + 1) = d.cells := ensure_of_le _ _ (by omega)
+  have e2 : Mem.ensure (d.cells.set i (d.cells.get j)) (j + 1) = d.cells.set i (d.cells.get j) :=
+    ensure_of_le _ _ (by simp; omega)
+  simp [step, getVec, hl, hi, hj, hlt, hd, World.writeCell, VecSt.writeCell_ok, hb1, hb2, e1, e2, World.upd]
+
+theorem step_swap (cfg : Cfg) (v ty i j : Nat) (w : World) (s : Spec) (h : Rel v ty w s) :
+    ∃ s', Spec.Step s (.swap i j) s' ∧ Rel v ty (step cfg ((VOp.swap i j).toOp v ty) w).1 s' ∧
+      (step cfg ((VOp.swap i j).toOp v ty) w).2.notUb := by
+  obtain ⟨hinv, hf, ⟨d, hv, hl, hty, habs, hcp, hbk⟩, hn⟩ := h
+  have hcore : Hist.Core ((VOp.swap i j).toOp v ty) := trivial
+  have hvalid : Hist.Valid w.vecs ((VOp.swap i j).toOp v ty) := ⟨d, hv, hl⟩
+  obtain ⟨hinv', hnub⟩ := Hist.step_inv cfg _ w hinv hcore hvalid
+  have hg := hinv.good v d hv
+  have hlen := abs_len hg.wf habs
+  have hlt : v < w.vecs.length := (List.getElem?_eq_some_iff.mp hv).1
+  by_cases hij : i < d.len ∧ j < d.len
+  · obtain ⟨hi, hj⟩ := hij
+    have hex := tswap_exec cfg w v i j d hv hl hg.wf hi hj
+    refine ⟨_, Spec.Step.swap s i j ⟨by omega, by omega⟩, ?_, hnub⟩
+    simp only [VOp.toOp] at hinv' ⊢
+    rw [hex] at hinv' ⊢
+    refine Rel.mk' hinv' hf { d with cells := (d.cells.set i (d.cells.get j)).set j (d.cells.get i) }
+      (by simp [World.upd, hlt]) hl hty ?_ hn hcp hbk
+    show ((d.cells.set i (d.cells.get j)).set j (d.cells.get i)).take d.len = _
+    rw [List.take_set, List.take_set]
+    have : d.cells.take d.len = s.items.map Cell.val := habs
+    rw [this, cell_of_abs hg habs i hi, cell_of_abs hg habs j hj]
+    simp [List.map_set]
+  · refine ⟨s, Spec.Step.swapOut s i j (by omega), ?_, hnub⟩
+    have hex : step cfg ((VOp.swap i j).toOp v ty) w = ({ w with fault := none }, .panic "index out of bounds") := by
+      simp only [VOp.toOp, step, WM.bind_apply, getVec_ok w v d hv hl, hij, if_false, WM.panic_apply]
+    rw [hex] at hinv' ⊢
+    exact Rel.mk' hinv' rfl d hv hl hty habs hn hcp hbk
+
+/-- typed `*at_mut(i) = fresh` in range, no injected fault: the old value is destroyed, the new one sits at `i` -/
+theorem tassign_exec (cfg : Cfg) (w : World) (v i id : Nat) (d : VecSt)
+    (hv : w.vecs[v]? = some d) (hl : d.live = true) (hwf : d.WF) (hi : i < d.len)
+    (hc : d.cells.get i = .val id) (hf : w.fault = none) :
+    step cfg (.tassign v i) w =
+      ({ logDrop d.hasDrop id w.bump with vecs := w.vecs.set v { d with cells := d.cells.set i (.val w.created) } }, .ok []) := by
+  have hlt : v < w.vecs.length := (List.getElem?_eq_some_iff.mp hv).1
+  have hd : w.vecs[v] = d := (List.getElem?_eq_some_iff.mp hv).2
+  have h1 := hwf.len_le; have h2 := hwf.cells_le
+  have hb1 : i < d.cap := by omega
+  have e1 : d.cells.ensure (i + 1) = d.cells := ensure_of_le _ _ (by omega)
+  simp [step, getVec, hl, hi, hlt, hd, fresh, readElem, VecSt.readElem_ok, hb1, hc, WM.onUnwind,
+    World.dropElem_nofault, hf, World.writeCell, VecSt.writeCell_ok, e1, World.upd, logDrop, World.bump]
+
+theorem step_assign (cfg : Cfg) (v ty i : Nat) (w : World) (s : Spec) (h : Rel v ty w s) :
+    ∃ s', Spec.Step s (.assign i) s' ∧ Rel v ty (step cfg ((VOp.assign i).toOp v ty) w).1 s' ∧
+      (step cfg ((VOp.assign i).toOp v ty) w).2.notUb := by
+  obtain ⟨hinv, hf, ⟨d, hv, hl, hty, habs, hcp, hbk⟩, hn⟩ := h
+  have hcore : Hist.Core ((VOp.assign i).toOp v ty) := trivial
+  have hvalid : Hist.Valid w.vecs ((VOp.assign i).toOp v ty) := ⟨d, hv, hl⟩
+  obtain ⟨hinv', hnub⟩ := Hist.step_inv cfg _ w hinv hcore hvalid
+  have hg := hinv.good v d hv
+  have hlen := abs_len hg.wf habs
+  have hlt : v < w.vecs.length := (List.getElem?_eq_some_iff.mp hv).1
+  by_cases hi : i < d.len
+  · have hc := cell_of_abs hg habs i hi
+    have hex := tassign_exec cfg w v i _ d hv hl hg.wf hi hc hf
+    refine ⟨_, Spec.Step.assign s i (by omega), ?_, hnub⟩
+    simp only [VOp.toOp] at hinv' ⊢
+    rw [hex] at hinv' ⊢
+    refine Rel.mk' hinv' (by simpa [logDrop, World.bump] using hf) { d with cells := d.cells.set i (.val w.created) }
+      (by simp [hlt]) hl hty ?_ (by simp [logDrop, World.bump, hn]) hcp hbk
+    show (d.cells.set i (.val w.created)).take d.len = _
+    rw [List.take_set]
+    have : d.cells.take d.len = s.items.map Cell.val := habs
+    rw [this, hn]
+    simp [List.map_set]
+  · refine ⟨_, Spec.Step.assignOut s i (by omega), ?_, hnub⟩
+    have hex : step cfg ((VOp.assign i).toOp v ty) w =
+        (logDrop cfg.hasDrop w.created { w.bump with fault := none }, .panic "called `Option::unwrap()` on a `None` value") := by
+      have hb : ({ w with created := w.created + 1 } : World) = w.bump := rfl
+      simp only [VOp.toOp, step, WM.bind_apply, getVec_ok w v d hv hl, fresh, WM.pure_apply, hb, hi, if_false, WM.onUnwind,
+        WM.panic_apply, dropElem, WM.modify_apply]
+      cases cfg.hasDrop <;> simp [tick, logDrop, WM.pure_apply]
+    rw [hex] at hinv' ⊢
+    exact Rel.mk' hinv' rfl d (by simpa [logDrop, World.bump] using hv) hl hty habs (by simp [logDrop, World.bump, hn]) hcp hbk
+
 /-- **one step refines the abstract vector** -/
-theorem step_refines (cfg : Cfg) (v ty : Nat) (w : World) (s : Spec) (h : Rel v ty w s) (op : VOp) :
+theorem step_refines (cfg : Cfg) (v ty : Nat) (w : World) (s : Spec) (h : Rel v ty w s) (op : VOp)
+    (hop : op.Allowed s.fixed) :
     ∃ s', Spec.Step s op s' ∧ Rel v ty (step cfg (op.toOp v ty) w).1 s' ∧ (step cfg (op.toOp v ty) w).2.notUb := by
   cases op with
   | push => exact step_push cfg v ty w s h
@@ -602,6 +924,16 @@ theorem step_refines (cfg : Cfg) (v ty : Nat) (w : World) (s : Spec) (h : Rel v 
   | tpop => exact step_tpop cfg v ty w s h
   | tremove i => exact step_tremove cfg v ty i w s h
   | tswapRemove i => exact step_tswapRemove cfg v ty i w s h
+  | reserve n => exact step_reserve cfg v ty n w s h
+  | reserveExact n => exact step_reserveExact cfg v ty n w s h hop
+  | shrinkToFit => exact step_shrinkToFit cfg v ty w s h hop
+  | shrinkTo n => exact step_shrinkTo cfg v ty n w s h hop
+  | swap i j => exact step_swap cfg v ty i j w s h
+  | assign i => exact step_assign cfg v ty i w s h
+
+/-- no operation changes the kind of storage -/
+theorem Spec.Step.fixed_eq {s s' : Spec} {op : VOp} (h : Spec.Step s op s') : s'.fixed = s.fixed := by
+  cases h <;> rfl
 
 /-- run a history of element-wise operations -/
 def runOps (cfg : Cfg) (v ty : Nat) : World → List VOp → World
@@ -613,19 +945,117 @@ inductive Spec.Steps : Spec → List VOp → Spec → Prop where
   | nil (s : Spec) : Steps s [] s
   | cons (s s1 s2 : Spec) (op : VOp) (ops : List VOp) : Spec.Step s op s1 → Steps s1 ops s2 → Steps s (op :: ops) s2
 
-/-- **every history refines the abstract vector**: from any world in which vector `v` shows the abstract items (and
-which satisfies the invariant, e.g. any reachable world), any sequence of element-wise operations - erased and typed
-`push`/`insert`, `pop`/`remove`/`swap_remove` with the handle dropped or (typed) with the value taken, `clear`, `drain(a..b)` dropped unconsumed, with any indices - leads to a world
-that shows what the abstract `Vec` shows after some run of the same sequence, and no step faults on memory. -/
+/-- **every history refines the abstract vector**: from any world in which vector `v` shows the abstract items and
+capacity (and which satisfies the invariant, e.g. any reachable world), any sequence of operations - erased and typed
+`push`/`insert`, `pop`/`remove`/`swap_remove` with the handle dropped or (typed) with the value taken, `clear`,
+`drain(a..b)` dropped unconsumed, `reserve`/`reserve_exact`/`shrink_to_fit`/`shrink_to`, typed `swap` and assignment,
+with any indices and amounts - leads to a world that shows what the abstract `Vec` shows after some run of the same
+sequence, and no step faults on memory. The abstract run refuses a value only when the vector is full, grows the
+capacity only when it must (and never on a fixed storage), and leaves the capacity alone otherwise. -/
 theorem history_refines (cfg : Cfg) (v ty : Nat) (ops : List VOp) :
-    ∀ (w : World) (s : Spec), Rel v ty w s → ∃ s', Spec.Steps s ops s' ∧ Rel v ty (runOps cfg v ty w ops) s' := by
+    ∀ (w : World) (s : Spec), Rel v ty w s → (∀ op ∈ ops, op.Allowed s.fixed) →
+      ∃ s', Spec.Steps s ops s' ∧ Rel v ty (runOps cfg v ty w ops) s' := by
   induction ops with
-  | nil => intro w s h; exact ⟨s, Spec.Steps.nil s, h⟩
+  | nil => intro w s h _; exact ⟨s, Spec.Steps.nil s, h⟩
   | cons op ops ih =>
-    intro w s h
-    obtain ⟨s1, hs1, hrel1, _⟩ := step_refines cfg v ty w s h op
-    obtain ⟨s2, hs2, hrel2⟩ := ih _ s1 hrel1
+    intro w s h hall
+    obtain ⟨s1, hs1, hrel1, _⟩ := step_refines cfg v ty w s h op (hall op List.mem_cons_self)
+    have hfx := hs1.fixed_eq
+    obtain ⟨s2, hs2, hrel2⟩ := ih _ s1 hrel1 (by intro o ho; rw [hfx]; exact hall o (List.mem_cons_of_mem _ ho))
     exact ⟨s2, Spec.Steps.cons s s1 s2 op ops hs1 hs2, hrel2⟩
+
+/-- with room the abstract `push` has no choice: it appends and leaves the capacity alone -/
+theorem Spec.push_with_room (t t' : Spec) (hroom : t.items.length < t.cap) (hp : Spec.Step t .push t') :
+    t'.items = t.items ++ [t.next] ∧ t'.cap = t.cap ∧ t'.next = t.next + 1 ∧ t'.fixed = t.fixed := by
+  cases hp with
+  | push c hr =>
+    cases hr with
+    | room hlt => exact ⟨rfl, rfl, rfl, rfl⟩
+    | grow c hfull _ _ => omega
+  | pushRefused hr =>
+    cases hr with
+    | refuse hfull => omega
+
+/-- `k` pushes into room for `k`: all appended, none refused, the capacity untouched -/
+theorem Spec.pushes_with_room (k : Nat) : ∀ (t t' : Spec), t.items.length + k ≤ t.cap →
+    Spec.Steps t (List.replicate k .push) t' →
+    t'.items = t.items ++ List.range' t.next k ∧ t'.cap = t.cap ∧ t'.next = t.next + k := by
+  induction k with
+  | zero =>
+    intro t t' _ hs
+    cases hs
+    simp
+  | succ k ih =>
+    intro t t' hroom hs
+    rw [List.replicate_succ] at hs
+    cases hs with
+    | cons _ s1 _ _ _ h1 hrest =>
+      obtain ⟨hi, hc, hn, _⟩ := Spec.push_with_room t s1 (by omega) h1
+      obtain ⟨hi', hc', hn'⟩ := ih s1 t' (by rw [hi, hc]; simp; omega) hrest
+      refine ⟨?_, by rw [hc', hc], by rw [hn', hn]; omega⟩
+      rw [hi', hi, hn, List.range'_succ]
+      simp
+
+/-- a `reserve(n)` step of the abstract vector: refused, or `len + n ≤ capacity` afterwards -/
+theorem Spec.reserve_result (s s' : Spec) (n : Nat) (h : Spec.Step s (.reserve n) s') :
+    s'.items = s.items ∧ s'.next = s.next ∧ (s'.items.length + n ≤ s'.cap ∨ (s' = s ∧ s.cap < s.items.length + n)) := by
+  cases h with
+  | reserveFits _ hfit => exact ⟨rfl, rfl, Or.inl hfit⟩
+  | reserveGrow _ c hlt hfix hc => exact ⟨rfl, rfl, Or.inl hc⟩
+  | reserveRefused _ hlt => exact ⟨rfl, rfl, Or.inr ⟨rfl, hlt⟩⟩
+
+/-- **`reserve(n)` keeps its promise (C10 through the refinement)**: from any related world, `reserve(n)` either is
+refused (then `capacity < len + n` and nothing changed) or the next `n` pushes all succeed: the world then shows the old
+items followed by the `n` new ones, at the capacity `reserve` left. -/
+theorem reserve_then_pushes (cfg : Cfg) (v ty n : Nat) (w : World) (s : Spec) (h : Rel v ty w s) :
+    ∃ s1, Rel v ty (step cfg (.reserve v n) w).1 s1 ∧ s1.items = s.items ∧
+      ((s1 = s ∧ s.cap < s.items.length + n) ∨
+       ∃ s', Rel v ty (runOps cfg v ty (step cfg (.reserve v n) w).1 (List.replicate n .push)) s' ∧
+         s'.items = s.items ++ List.range' s.next n ∧ s'.cap = s1.cap) := by
+  obtain ⟨s1, hs1, hrel1, _⟩ := step_refines cfg v ty w s h (.reserve n) trivial
+  obtain ⟨hi, hn, hres⟩ := Spec.reserve_result s s1 n hs1
+  refine ⟨s1, hrel1, hi, ?_⟩
+  rcases hres with hgot | hrefused
+  · right
+    obtain ⟨s', hsteps, hrel'⟩ := history_refines cfg v ty (List.replicate n .push) _ s1 hrel1
+      (by intro op hop; rw [List.eq_of_mem_replicate hop]; trivial)
+    obtain ⟨hi', hc', _⟩ := Spec.pushes_with_room n s1 s' hgot hsteps
+    exact ⟨s', hrel', by rw [hi', hi, hn], hc'⟩
+  · exact Or.inl hrefused
+
+/-- a fixed storage never changes its capacity, whatever the operation -/
+theorem Spec.Step.cap_fixed {s s' : Spec} {op : VOp} (h : Spec.Step s op s') (hfx : s.fixed = true)
+    (hop : op.Allowed s.fixed) : s'.cap = s.cap := by
+  have hne : ¬ s.fixed = false := by rw [hfx]; simp
+  cases h
+  case push c hr => cases hr with
+    | room _ => rfl
+    | grow c _ hfix _ => exact (hne hfix).elim
+  case tpush c hr => cases hr with
+    | room _ => rfl
+    | grow c _ hfix _ => exact (hne hfix).elim
+  case insert c _ hr => cases hr with
+    | room _ => rfl
+    | grow c _ hfix _ => exact (hne hfix).elim
+  case tinsert c _ hr => cases hr with
+    | room _ => rfl
+    | grow c _ hfix _ => exact (hne hfix).elim
+  case reserveGrow c _ hfix _ => exact (hne hfix).elim
+  case reserveExactGrow => exact (hne hop).elim
+  case shrinkToFit => exact (hne hop).elim
+  case shrinkTo => exact (hne hop).elim
+  all_goals rfl
+
+/-- … over whole histories (C11: a stack vector holds exactly the capacity it was built with, whatever is done to it;
+a `push` / `insert` is accepted exactly while `len < capacity`, `Spec.Room`) -/
+theorem Spec.Steps.cap_fixed {s s' : Spec} {ops : List VOp} (h : Spec.Steps s ops s') (hfx : s.fixed = true)
+    (hall : ∀ op ∈ ops, op.Allowed s.fixed) : s'.cap = s.cap := by
+  induction h with
+  | nil s => rfl
+  | cons s s1 s2 op ops h1 _ ih =>
+    have hc := h1.cap_fixed hfx (hall op List.mem_cons_self)
+    have hf := h1.fixed_eq
+    rw [ih (by rw [hf, hfx]) (by intro o ho; rw [hf]; exact hall o (List.mem_cons_of_mem _ ho)), hc]
 
 /-- reads: `get(i)` shows the abstract item at `i` (`None` past the end) and changes nothing; `at(i)` likewise, with
 the `unwrap` panic past the end -/
@@ -633,7 +1063,7 @@ theorem get_refines (cfg : Cfg) (v ty i : Nat) (w : World) (s : Spec) (h : Rel v
     step cfg (.get v i false) w =
       (w, .ok [match s.items[i]? with | some id => cfg.tok id | none => "N"]) ∧
     (i < s.items.length → step cfg (.get v i true) w = step cfg (.get v i false) w) := by
-  obtain ⟨hinv, hf, ⟨d, hv, hl, hty, habs⟩, hn⟩ := h
+  obtain ⟨hinv, hf, ⟨d, hv, hl, hty, habs, hcp, hbk⟩, hn⟩ := h
   have hg := hinv.good v d hv
   have hlen := abs_len hg.wf habs
   have h1 := hg.wf.len_le; have h2 := hg.wf.cells_le
@@ -659,11 +1089,11 @@ theorem get_refines (cfg : Cfg) (v ty i : Nat) (w : World) (s : Spec) (h : Rel v
 relation asks for: the refinement starts from wherever such a history has led -/
 theorem rel_of_reach (cfg : Cfg) (w : World) (hr : Hist.Reach cfg w) (hf : w.fault = none) (v : Nat) (d : VecSt)
     (hv : w.vecs[v]? = some d) (hl : d.live = true) :
-    ∃ items, Rel v d.ty w ⟨items, w.created⟩ := by
+    ∃ items, Rel v d.ty w ⟨items, w.created, d.cap, !VecSt.resizable d.bk⟩ := by
   have hinv := Hist.reach_inv_core cfg w hr
   have hg := hinv.good v d hv
   -- every visible cell is a value: read the identities off
-  refine ⟨d.abs.map Cell.idOr0, hinv, hf, ⟨d, hv, hl, rfl, ?_⟩, rfl⟩
+  refine ⟨d.abs.map Cell.idOr0, hinv, hf, ⟨d, hv, hl, rfl, ?_, rfl, by simp⟩, rfl⟩
   simp only [List.map_map]
   have : ∀ c ∈ d.abs, (Cell.val ∘ Cell.idOr0) c = c := by
     intro c hc
@@ -676,10 +1106,10 @@ def sampleVec : VecSt :=
   { ty := 0, size := 8, align := 8, hasDrop := true, cloneable := true, bk := .heap, cap := 4,
     cells := [.val 10, .val 11, .val 12], len := 3, gen := 0, live := true }
 def sampleWorld : World := { vecs := [sampleVec], created := 13 }
-def sampleOps : List VOp := [.push, .insert 1, .remove 0, .swapRemove 0, .pop, .tpush, .remove 9]
+def sampleOps : List VOp := [.push, .insert 1, .remove 0, .swapRemove 0, .pop, .tpush, .remove 9, .reserve 3, .swap 0 2]
 
 example : (runOps { size := 8, align := 8, hasDrop := true } 0 0 sampleWorld sampleOps).vis 0 =
-    [.val 13, .val 11, .val 15] := by decide
+    [.val 15, .val 11, .val 13] := by decide
 
 end Refine
 end AnyVec
